@@ -550,3 +550,250 @@ pub fn determinism_jobs(rng: &mut Rng, dir: &Path) -> Option<(Vec<Job>, String)>
     let jobs = vec![Job { family: "import-csv-multi-matcher-rules", argv: vec!["import".into(), "--config".into(), cfg.to_string_lossy().into_owned(), src.to_string_lossy().into_owned()] }];
     Some((jobs, format!("=== config\n{}=== csv\n{}", case.config_yaml, case.csv_text)))
 }
+
+// ---------------------------------------------------------------------------------------
+// ISO Camt053 statements
+
+pub fn xml_escape(s: &str) -> String {
+    s.replace('&', "&amp;").replace('<', "&lt;").replace('>', "&gt;")
+}
+
+#[derive(Clone, Debug)]
+pub struct CamtDetail {
+    pub amount: Q,
+    pub credit: bool,
+    pub reference: Option<String>,
+    pub creditor: Option<String>,
+    pub debtor: Option<String>,
+    pub ultimate_debtor: Option<String>,
+    pub remittance: Option<String>,
+    pub additional_info: Option<String>,
+    /// charge included in the amount (debit charge): TxAmt = amount -/+ charge
+    pub charge: Option<Q>,
+}
+
+#[derive(Clone, Debug)]
+pub struct CamtEntry {
+    pub amount: Q,
+    pub credit: bool,
+    pub booking: NaiveDate,
+    pub value: Option<NaiveDate>,
+    pub value_as_datetime: bool,
+    pub domain: (&'static str, &'static str, &'static str),
+    pub additional_info: String,
+    pub details: Vec<CamtDetail>,
+}
+
+impl CamtEntry {
+    pub fn signed(&self) -> Q {
+        if self.credit {
+            self.amount
+        } else {
+            self.amount.neg()
+        }
+    }
+}
+
+impl CamtDetail {
+    pub fn signed(&self) -> Q {
+        if self.credit {
+            self.amount
+        } else {
+            self.amount.neg()
+        }
+    }
+}
+
+#[derive(Clone, Debug)]
+pub struct CamtCase {
+    pub currency: String,
+    pub opening: Q,
+    pub closing: Q,
+    /// in file order
+    pub entries: Vec<CamtEntry>,
+    pub new_to_old: bool,
+    pub account: String,
+    pub file_name: String,
+    pub xml: String,
+    pub config_yaml: String,
+}
+
+pub const PARTY_NAMES: &[&str] = &["Money Bank", "Herr Haus Okane und Frau Hause Okane", "OKANE VERSICHERUNGEN", "EURO GROCERY", "山田商店", "Taro Yamada", "Hanako Steinmann"];
+const DOMAINS: &[(&str, &str, &str)] = &[("PMNT", "RCDT", "OTHR"), ("PMNT", "ICDT", "AUTT"), ("PMNT", "RCDT", "SALA"), ("PMNT", "RDDT", "PMDD"), ("PMNT", "ICDT", "STDO"), ("PMNT", "RCDT", "DAJT")];
+
+fn money(q: Q) -> String {
+    q_text(q)
+}
+
+impl CamtCase {
+    pub fn generate(rng: &mut Rng, texts: &[&str]) -> CamtCase {
+        let currency = rng.pick_str(&["CHF", "EUR", "USD"]).to_string();
+        let cent = Q::from_parts(1, 2).unwrap();
+        let opening = Q::int(rng.range(0, 900000) as i128).mul(cent).unwrap();
+        let n = 1 + rng.usize(8);
+        let mut day = NaiveDate::from_ymd_opt(2021, 10, 1).unwrap();
+        let mut entries = Vec::new();
+        let mut bal = opening;
+        for k in 0..n {
+            day += chrono::Duration::days(rng.range(0, 4));
+            let value = match rng.below(4) {
+                0 => None,
+                1 => Some(day),
+                _ => Some(day + chrono::Duration::days(rng.range(-2, 3))),
+            };
+            let n_details = match rng.below(6) {
+                0 | 1 => 0,
+                2 | 3 => 1,
+                _ => 2 + rng.usize(3),
+            };
+            let credit = rng.chance(2, 5);
+            let mut details = Vec::new();
+            let mut total = Q::ZERO;
+            for j in 0..n_details {
+                let amt = Q::int(rng.range(1, 200000) as i128).mul(cent).unwrap();
+                // a batched entry may mix credits and debits as long as the signed sum is the entry
+                let dcredit = if n_details > 1 && rng.chance(1, 5) { !credit } else { credit };
+                let charge = if rng.chance(1, 6) { Some(Q::int(rng.range(1, 500) as i128).mul(cent).unwrap()) } else { None };
+                // an included debit charge must leave a positive transaction amount
+                let charge = charge.filter(|c| dcredit || amt.sub(*c).map(|x| x.signum() > 0).unwrap_or(false));
+                details.push(CamtDetail {
+                    amount: amt,
+                    credit: dcredit,
+                    reference: if rng.chance(4, 5) { Some(format!("2021103{}/{}/{}", k % 10, k + 1, j + 1)) } else { None },
+                    creditor: if rng.chance(1, 2) { Some(rng.pick(texts).to_string()) } else { None },
+                    debtor: if rng.chance(1, 2) { Some(rng.pick(texts).to_string()) } else { None },
+                    ultimate_debtor: if rng.chance(1, 5) { Some(rng.pick(texts).to_string()) } else { None },
+                    remittance: if rng.chance(1, 3) { Some(rng.pick(texts).to_string()) } else { None },
+                    additional_info: if rng.chance(1, 2) { Some(rng.pick(texts).to_string()) } else { None },
+                    charge,
+                });
+                let d = details.last().unwrap();
+                total = total.add(d.signed()).unwrap();
+            }
+            let (amount, credit) = if n_details == 0 {
+                (Q::int(rng.range(1, 300000) as i128).mul(cent).unwrap(), credit)
+            } else if total.is_zero() {
+                // keep the entry non-zero: drop the mixing
+                for d in details.iter_mut() {
+                    d.credit = credit;
+                }
+                let t = details.iter().fold(Q::ZERO, |a, d| a.add(d.amount).unwrap());
+                (t, credit)
+            } else {
+                (total.abs(), total.signum() > 0)
+            };
+            let e = CamtEntry { amount, credit, booking: day, value, value_as_datetime: rng.chance(1, 5), domain: *rng.pick(DOMAINS), additional_info: rng.pick(texts).to_string(), details };
+            bal = bal.add(e.signed()).unwrap();
+            entries.push(e);
+        }
+        let new_to_old = rng.chance(1, 2);
+        if new_to_old {
+            entries.reverse();
+        }
+        let mut case = CamtCase { currency, opening, closing: bal, entries, new_to_old, account: "Assets:Okane Bank".into(), file_name: format!("camt{}.xml", rng.below(1000)), xml: String::new(), config_yaml: String::new() };
+        case.render();
+        case
+    }
+
+    pub fn render(&mut self) {
+        let c = &self.currency;
+        let mut x = String::from("<?xml version=\"1.0\" encoding=\"UTF-8\"?>\n<Document xmlns=\"urn:iso:std:iso:20022:tech:xsd:camt.053.001.04\">\n  <BkToCstmrStmt>\n    <GrpHdr><MsgId>1</MsgId><CreDtTm>2021-10-31T00:00:00</CreDtTm></GrpHdr>\n    <Stmt>\n      <Id>1</Id>\n");
+        let bal = |code: &str, v: Q| {
+            format!(
+                "      <Bal><Tp><CdOrPrtry><Cd>{}</Cd></CdOrPrtry></Tp><Amt Ccy=\"{}\">{}</Amt><CdtDbtInd>{}</CdtDbtInd><Dt><Dt>2021-10-01</Dt></Dt></Bal>\n",
+                code,
+                c,
+                money(v.abs()),
+                if v.signum() < 0 { "DBIT" } else { "CRDT" }
+            )
+        };
+        x.push_str(&bal("OPBD", self.opening));
+        x.push_str(&bal("CLBD", self.closing));
+        for e in &self.entries {
+            x.push_str("      <Ntry>\n");
+            x.push_str(&format!("        <Amt Ccy=\"{}\">{}</Amt>\n        <CdtDbtInd>{}</CdtDbtInd>\n        <Sts>BOOK</Sts>\n", c, money(e.amount), if e.credit { "CRDT" } else { "DBIT" }));
+            x.push_str(&format!("        <BookgDt><Dt>{}</Dt></BookgDt>\n", e.booking));
+            if let Some(v) = e.value {
+                if e.value_as_datetime {
+                    x.push_str(&format!("        <ValDt><DtTm>{}T10:30:00+02:00</DtTm></ValDt>\n", v));
+                } else {
+                    x.push_str(&format!("        <ValDt><Dt>{}</Dt></ValDt>\n", v));
+                }
+            }
+            x.push_str(&format!("        <BkTxCd><Domn><Cd>{}</Cd><Fmly><Cd>{}</Cd><SubFmlyCd>{}</SubFmlyCd></Fmly></Domn></BkTxCd>\n", e.domain.0, e.domain.1, e.domain.2));
+            if !e.details.is_empty() {
+                x.push_str(&format!("        <NtryDtls>\n          <Btch><NbOfTxs>{}</NbOfTxs></Btch>\n", e.details.len()));
+                for d in &e.details {
+                    x.push_str("          <TxDtls>\n            <Refs>");
+                    if let Some(r) = &d.reference {
+                        x.push_str(&format!("<AcctSvcrRef>{}</AcctSvcrRef>", xml_escape(r)));
+                    }
+                    x.push_str("<EndToEndId>NOTPROVIDED</EndToEndId></Refs>\n");
+                    x.push_str(&format!("            <Amt Ccy=\"{}\">{}</Amt>\n            <CdtDbtInd>{}</CdtDbtInd>\n", c, money(d.amount), if d.credit { "CRDT" } else { "DBIT" }));
+                    let tx_amt = match d.charge {
+                        None => d.amount,
+                        Some(ch) => {
+                            if d.credit {
+                                d.amount.add(ch).unwrap()
+                            } else {
+                                d.amount.sub(ch).unwrap()
+                            }
+                        }
+                    };
+                    x.push_str(&format!("            <AmtDtls><InstdAmt><Amt Ccy=\"{}\">{}</Amt></InstdAmt><TxAmt><Amt Ccy=\"{}\">{}</Amt></TxAmt></AmtDtls>\n", c, money(tx_amt), c, money(tx_amt)));
+                    if let Some(ch) = d.charge {
+                        x.push_str(&format!("            <Chrgs><Rcrd><Amt Ccy=\"{}\">{}</Amt><CdtDbtInd>DBIT</CdtDbtInd><ChrgInclInd>true</ChrgInclInd></Rcrd></Chrgs>\n", c, money(ch)));
+                    }
+                    if d.creditor.is_some() || d.debtor.is_some() || d.ultimate_debtor.is_some() {
+                        x.push_str("            <RltdPties>");
+                        if let Some(n) = &d.debtor {
+                            x.push_str(&format!("<Dbtr><Nm>{}</Nm></Dbtr>", xml_escape(n)));
+                        }
+                        if let Some(n) = &d.creditor {
+                            x.push_str(&format!("<Cdtr><Nm>{}</Nm></Cdtr>", xml_escape(n)));
+                        }
+                        if let Some(n) = &d.ultimate_debtor {
+                            x.push_str(&format!("<UltmtDbtr><Nm>{}</Nm></UltmtDbtr>", xml_escape(n)));
+                        }
+                        x.push_str("</RltdPties>\n");
+                    }
+                    if let Some(r) = &d.remittance {
+                        x.push_str(&format!("            <RmtInf><Ustrd>{}</Ustrd></RmtInf>\n", xml_escape(r)));
+                    }
+                    if let Some(a) = &d.additional_info {
+                        x.push_str(&format!("            <AddtlTxInf>{}</AddtlTxInf>\n", xml_escape(a)));
+                    }
+                    x.push_str("          </TxDtls>\n");
+                }
+                x.push_str("        </NtryDtls>\n");
+            }
+            x.push_str(&format!("        <AddtlNtryInf>{}</AddtlNtryInf>\n      </Ntry>\n", xml_escape(&e.additional_info)));
+        }
+        x.push_str("    </Stmt>\n  </BkToCstmrStmt>\n</Document>\n");
+        self.xml = x;
+        let mut y = format!("path: {}\nencoding: UTF-8\naccount: {}\naccount_type: asset\noperator: Okane Bank (fee)\ncommodity: {}\nformat:\n", yaml_str(&self.file_name), yaml_str(&self.account), self.currency);
+        if self.new_to_old {
+            y.push_str("  row_order: new_to_old\n");
+        }
+        y.push_str(&format!("  commodity:\n    {}:\n      precision: 2\n", self.currency));
+        self.config_yaml = y;
+    }
+
+    pub fn write(&self, dir: &Path) -> std::io::Result<(PathBuf, PathBuf)> {
+        std::fs::create_dir_all(dir)?;
+        let cfg = dir.join("config.yml");
+        let src = dir.join(&self.file_name);
+        std::fs::write(&cfg, &self.config_yaml)?;
+        std::fs::write(&src, &self.xml)?;
+        Ok((cfg, src))
+    }
+
+    /// Entries in chronological (processing) order.
+    pub fn processing_order(&self) -> Vec<&CamtEntry> {
+        if self.new_to_old {
+            self.entries.iter().rev().collect()
+        } else {
+            self.entries.iter().collect()
+        }
+    }
+}
